@@ -155,9 +155,115 @@ Qed.
 Lemma minimal_direct : forall d, 2 <= nlen d -> nlen d <= 75 -> minimal_push EDirect d = true.
 Proof. intros d H1 H2. rewrite <- (canon_enc_direct d H1 H2). apply minimal_canon. Qed.
 
+Local Arguments minimal_push : simpl never.
+Local Arguments bytes_eqb : simpl never.
+Local Arguments nlen : simpl never.
+Local Arguments N.ltb : simpl never.
+Local Arguments of_bool : simpl never.
+
+Lemma bytes_eqb_sym : forall a b, bytes_eqb a b = bytes_eqb b a.
+Proof.
+  intros a b. destruct (bytes_eqb a b) eqn:E.
+  - apply bytes_eqb_eq in E. subst. now rewrite bytes_eqb_refl.
+  - apply bytes_eqb_neq in E. symmetry. apply bytes_eqb_neq. congruence.
+Qed.
+
+Lemma if_bool_of_bool : forall v b, if_bool v (of_bool b) = Some b.
+Proof. intros [|] [|]; reflexivity. Qed.
+
+Lemma ser_cons : forall o t, ser (o :: t) = ser_op o ++ ser t.
+Proof. reflexivity. Qed.
+
+Lemma wf_canon_push : forall d, nlen d <= 520 -> wf_op (canon_push d).
+Proof.
+  intros d H. unfold canon_push, canon_enc.
+  destruct d as [|a [|b t]].
+  - left; reflexivity.
+  - destruct (((1 <=? a) && (a <=? 16)) || (a =? 129)) eqn:E; cbn [wf_op].
+    + right. exists a. split; [reflexivity|]. lia.
+    + unfold nlen; cbn; lia.
+  - destruct (N.leb_spec (nlen (a :: b :: t)) 75); cbn [wf_op].
+    + unfold nlen in *; cbn [length] in *; lia.
+    + destruct (N.leb_spec (nlen (a :: b :: t)) 255); cbn [wf_op]; [assumption|].
+      destruct (N.leb_spec (nlen (a :: b :: t)) 65535); cbn [wf_op]; lia.
+Qed.
+
+Lemma ser_canon_len : forall d, nlen d <= 520 -> nlen (ser_op (canon_push d)) <= nlen d + 3.
+Proof.
+  intros d H. unfold canon_push, canon_enc.
+  destruct d as [|a [|b t]].
+  - unfold nlen; cbn; lia.
+  - destruct (((1 <=? a) && (a <=? 16)) || (a =? 129)); cbn [ser_op].
+    + destruct (a =? 129); unfold nlen; cbn; lia.
+    + unfold nlen; cbn; lia.
+  - destruct (N.leb_spec (nlen (a :: b :: t)) 75); cbn [ser_op].
+    + unfold nlen in *; cbn [length] in *; lia.
+    + destruct (N.leb_spec (nlen (a :: b :: t)) 255); cbn [ser_op].
+      * unfold nlen in *; cbn [length] in *; lia.
+      * destruct (N.leb_spec (nlen (a :: b :: t)) 65535); cbn [ser_op];
+          unfold nlen in *; cbn [length le_bytes] in *; rewrite ?app_length; cbn [length]; lia.
+Qed.
+
+Lemma deposit_ops_wf : forall d, dep_wf d -> Forall wf_op (deposit_ops d).
+Proof.
+  intros [dep ex bl w r lk] W. unfold dep_wf in W; cbn in W. destruct W as (W1&W2&W3&W4&W5&W6).
+  unfold deposit_ops. cbn [dp_depositor dp_extra dp_blinding dp_wpkh dp_rpkh dp_lock].
+  destruct ex as [x|]; cbn [app]; repeat constructor; cbn [wf_op]; unfold nlen; lia.
+Qed.
+
+Lemma deposit_ser_len : forall d, dep_wf d ->
+    nlen (ser (deposit_ops d)) = match dp_extra d with Some _ => 126 | None => 92 end.
+Proof.
+  intros [dep ex bl w r lk] W. unfold dep_wf in W; cbn in W. destruct W as (W1&W2&W3&W4&W5&W6).
+  unfold deposit_ops. cbn [dp_depositor dp_extra dp_blinding dp_wpkh dp_rpkh dp_lock].
+  destruct ex as [x|]; cbn [app]; unfold nlen; repeat rewrite ser_cons; cbn [ser ser_op flat_map];
+    repeat (rewrite app_length; cbn [length]); unfold nlen; lia.
+Qed.
+
+Lemma nlen_ser_p2sh : forall h, length h = 20%nat -> nlen (ser (p2sh h)) = 23.
+Proof. intros h H. unfold nlen, p2sh. cbn. rewrite app_length. cbn. lia. Qed.
+
+Lemma nlen_ser_p2wsh : forall h, nlen (ser (p2wsh h)) = 2 + nlen h.
+Proof. intros h. unfold p2wsh. rewrite !ser_cons. cbn [ser_op ser flat_map]. unfold nlen. rewrite !app_length. cbn [length]. lia. Qed.
+
+Lemma nlen_ser_p2pkh : forall h, length h = 20%nat -> nlen (ser (p2pkh h)) = 25.
+Proof. intros h H. unfold nlen, p2pkh. cbn. rewrite app_length. cbn. lia. Qed.
+
+Lemma parse_p2sh : forall h, length h = 20%nat -> parse (ser (p2sh h)) = Some (p2sh h).
+Proof. intros h H. apply parse_ser. repeat (apply Forall_cons || apply Forall_nil); cbn [wf_op]; try exact I; unfold nlen; lia. Qed.
+
+Lemma parse_p2pkh : forall h, length h = 20%nat -> parse (ser (p2pkh h)) = Some (p2pkh h).
+Proof. intros h H. apply parse_ser. repeat (apply Forall_cons || apply Forall_nil); cbn [wf_op]; try exact I; unfold nlen; lia. Qed.
+
+Lemma parse_p2wsh : forall h, (2 <= length h <= 40)%nat -> parse (ser (p2wsh h)) = Some (p2wsh h).
+Proof. intros h H. apply parse_ser. repeat (apply Forall_cons || apply Forall_nil); cbn [wf_op]; try exact I; [now left|unfold nlen; lia]. Qed.
+
+Lemma nlen_unlock : forall l, Forall (fun d => nlen d <= 520) l -> (length l <= 3)%nat ->
+    nlen (ser (map canon_push l)) <= 1569.
+Proof.
+  intros l H L.
+  assert (G : nlen (ser (map canon_push l)) <= 523 * N.of_nat (length l)).
+  { clear L. induction H as [|d l Hd _ IH]; [unfold nlen; cbn; lia|].
+    cbn [map length]. rewrite ser_cons. pose proof (ser_canon_len d Hd).
+    unfold nlen in *. rewrite app_length. lia. }
+  lia.
+Qed.
+
+Lemma ser_nonempty_cons : forall o t, (nlen (ser (o :: t)) =? 0) = false.
+Proof.
+  intros. rewrite ser_cons. apply N.eqb_neq. unfold nlen. rewrite app_length.
+  pose proof (ser_op_nonempty o). lia.
+Qed.
+
+Lemma existsb_big_false : forall l : list bytes, Forall (fun d => nlen d <= 520) l ->
+    existsb (fun e => 520 <? nlen e) l = false.
+Proof.
+  induction 1 as [|d l Hd _ IH]; [reflexivity|]. cbn [existsb]. rewrite IH.
+  destruct (N.ltb_spec 520 (nlen d)); [lia|reflexivity].
+Qed.
+
 Section InterpLemmas.
   Variable hash160 : bytes -> bytes.
-  Variable sha256 : bytes -> bytes.
   Variable der_strict : bytes -> bool.
   Variable checksig : bytes -> bytes -> sighash -> bool.
 
@@ -211,15 +317,7 @@ Section InterpLemmas.
   Lemma run_nil : forall c s, run c [] s = Ok s.
   Proof. reflexivity. Qed.
 
-  Lemma if_bool_of_bool : forall v b, if_bool v (of_bool b) = Some b.
-  Proof. intros [|] [|]; reflexivity. Qed.
 
-  Lemma bytes_eqb_sym : forall a b, bytes_eqb a b = bytes_eqb b a.
-  Proof.
-    intros a b. destruct (bytes_eqb a b) eqn:E.
-    - apply bytes_eqb_eq in E. subst. now rewrite bytes_eqb_refl.
-    - apply bytes_eqb_neq in E. symmetry. apply bytes_eqb_neq. congruence.
-  Qed.
 
   Lemma op_cltv_spec : forall c top rest cn n,
       op_cltv c {| stk := top :: rest; cnd := cn; nops := n |} =
@@ -228,15 +326,11 @@ Section InterpLemmas.
     intros. unfold op_cltv, cltv_pass. cbn [stk]. destruct (script_num 5 top); reflexivity.
   Qed.
 
-  Local Arguments minimal_push : simpl never.
-  Local Arguments bytes_eqb : simpl never.
-  Local Arguments nlen : simpl never.
+
   Local Arguments C27.op_checksig : simpl never.
   Local Arguments op_cltv : simpl never.
-  Local Arguments N.ltb : simpl never.
   Local Arguments C27.run : simpl never.
   Local Arguments if_bool : simpl never.
-  Local Arguments of_bool : simpl never.
 
   Ltac fin := repeat match goal with
     | H : (520 <? nlen ?x) = false |- context [520 <? nlen ?x] => rewrite H
@@ -277,40 +371,12 @@ Section InterpLemmas.
   Qed.
 
   (* ---- canonical pushes ---- *)
-  Lemma wf_canon_push : forall d, nlen d <= 520 -> wf_op (canon_push d).
-  Proof.
-    intros d H. unfold canon_push, canon_enc.
-    destruct d as [|a [|b t]].
-    - left; reflexivity.
-    - destruct (((1 <=? a) && (a <=? 16)) || (a =? 129)) eqn:E; cbn [wf_op].
-      + right. exists a. split; [reflexivity|]. lia.
-      + unfold nlen; cbn; lia.
-    - destruct (N.leb_spec (nlen (a :: b :: t)) 75); cbn [wf_op].
-      + unfold nlen in *; cbn [length] in *; lia.
-      + destruct (N.leb_spec (nlen (a :: b :: t)) 255); cbn [wf_op]; [assumption|].
-        destruct (N.leb_spec (nlen (a :: b :: t)) 65535); cbn [wf_op]; lia.
-  Qed.
 
   Lemma step_canon_push : forall c d s,
       nlen d <= 520 -> branch_executing (cnd s) = true ->
       step c (canon_push d) s = Ok (with_stack s (d :: stk s)).
   Proof. intros. unfold canon_push. apply step_push_exec; auto using minimal_canon. Qed.
 
-  Lemma ser_canon_len : forall d, nlen d <= 520 -> nlen (ser_op (canon_push d)) <= nlen d + 3.
-  Proof.
-    intros d H. unfold canon_push, canon_enc.
-    destruct d as [|a [|b t]].
-    - unfold nlen; cbn; lia.
-    - destruct (((1 <=? a) && (a <=? 16)) || (a =? 129)); cbn [ser_op].
-      + destruct (a =? 129); unfold nlen; cbn; lia.
-      + unfold nlen; cbn; lia.
-    - destruct (N.leb_spec (nlen (a :: b :: t)) 75); cbn [ser_op].
-      + unfold nlen in *; cbn [length] in *; lia.
-      + destruct (N.leb_spec (nlen (a :: b :: t)) 255); cbn [ser_op].
-        * unfold nlen in *; cbn [length] in *; lia.
-        * destruct (N.leb_spec (nlen (a :: b :: t)) 65535); cbn [ser_op];
-            unfold nlen in *; cbn [length le_bytes] in *; rewrite ?app_length; cbn [length]; lia.
-  Qed.
 
   Lemma run_pushes : forall c l st,
       Forall (fun d => nlen d <= 520) l ->
@@ -326,25 +392,10 @@ Section InterpLemmas.
   Qed.
 
   (* ---- the deposit script: well-formed opcodes, length ---- *)
-  Lemma deposit_ops_wf : forall d, dep_wf d -> Forall wf_op (deposit_ops d).
-  Proof.
-    intros [dep ex bl w r lk] W. unfold dep_wf in W; cbn in W. destruct W as (W1&W2&W3&W4&W5&W6).
-    unfold deposit_ops. cbn [dp_depositor dp_extra dp_blinding dp_wpkh dp_rpkh dp_lock].
-    destruct ex as [x|]; cbn [app]; repeat constructor; cbn [wf_op]; unfold nlen; lia.
-  Qed.
 
-  Lemma ser_cons : forall o t, ser (o :: t) = ser_op o ++ ser t.
-  Proof. reflexivity. Qed.
 
-  Lemma deposit_ser_len : forall d, dep_wf d ->
-      nlen (ser (deposit_ops d)) = match dp_extra d with Some _ => 126 | None => 92 end.
-  Proof.
-    intros [dep ex bl w r lk] W. unfold dep_wf in W; cbn in W. destruct W as (W1&W2&W3&W4&W5&W6).
-    unfold deposit_ops. cbn [dp_depositor dp_extra dp_blinding dp_wpkh dp_rpkh dp_lock].
-    destruct ex as [x|]; cbn [app]; unfold nlen; repeat rewrite ser_cons; cbn [ser ser_op flat_map];
-      repeat (rewrite app_length; cbn [length]); unfold nlen; lia.
-  Qed.
 
+  Variable sha256 : bytes -> bytes.
   Notation verify_input := (verify_input hash160 sha256 der_strict checksig).
   Notation verify_witness := (verify_witness hash160 sha256 der_strict checksig).
 
@@ -366,36 +417,9 @@ Section InterpLemmas.
       repeat (rewrite ?op_checksig_spec, ?U, ?SA; cbn; try stp); reflexivity.
   Qed.
 
-  Lemma nlen_ser_p2sh : forall h, length h = 20%nat -> nlen (ser (p2sh h)) = 23.
-  Proof. intros h H. unfold nlen, p2sh. cbn. rewrite app_length. cbn. lia. Qed.
-  Lemma nlen_ser_p2wsh : forall h, nlen (ser (p2wsh h)) = 2 + nlen h.
-  Proof. intros h. unfold p2wsh. rewrite !ser_cons. cbn [ser_op ser flat_map]. unfold nlen. rewrite !app_length. cbn [length]. lia. Qed.
-  Lemma nlen_ser_p2pkh : forall h, length h = 20%nat -> nlen (ser (p2pkh h)) = 25.
-  Proof. intros h H. unfold nlen, p2pkh. cbn. rewrite app_length. cbn. lia. Qed.
 
-  Lemma parse_p2sh : forall h, length h = 20%nat -> parse (ser (p2sh h)) = Some (p2sh h).
-  Proof. intros h H. apply parse_ser. repeat (apply Forall_cons || apply Forall_nil); cbn [wf_op]; try exact I; unfold nlen; lia. Qed.
-  Lemma parse_p2pkh : forall h, length h = 20%nat -> parse (ser (p2pkh h)) = Some (p2pkh h).
-  Proof. intros h H. apply parse_ser. repeat (apply Forall_cons || apply Forall_nil); cbn [wf_op]; try exact I; unfold nlen; lia. Qed.
-  Lemma parse_p2wsh : forall h, (2 <= length h <= 40)%nat -> parse (ser (p2wsh h)) = Some (p2wsh h).
-  Proof. intros h H. apply parse_ser. repeat (apply Forall_cons || apply Forall_nil); cbn [wf_op]; try exact I; [now left|unfold nlen; lia]. Qed.
 
-  Lemma nlen_unlock : forall l, Forall (fun d => nlen d <= 520) l -> (length l <= 3)%nat ->
-      nlen (ser (map canon_push l)) <= 1569.
-  Proof.
-    intros l H L.
-    assert (G : nlen (ser (map canon_push l)) <= 523 * N.of_nat (length l)).
-    { clear L. induction H as [|d l Hd _ IH]; [unfold nlen; cbn; lia|].
-      cbn [map length]. rewrite ser_cons. pose proof (ser_canon_len d Hd).
-      unfold nlen in *. rewrite app_length. lia. }
-    lia.
-  Qed.
 
-  Lemma ser_nonempty_cons : forall o t, (nlen (ser (o :: t)) =? 0) = false.
-  Proof.
-    intros. rewrite ser_cons. apply N.eqb_neq. unfold nlen. rewrite app_length.
-    pose proof (ser_op_nonempty o). lia.
-  Qed.
 
   (* the engine on a P2SH output locked to the deposit script *)
   Lemma p2sh_deposit_verify : forall tx i sig pk d amount,
@@ -439,12 +463,6 @@ Section InterpLemmas.
   Lemma run_script_nil : forall c st, run_script c [] st = Ok st.
   Proof. reflexivity. Qed.
 
-  Lemma existsb_big_false : forall l : list bytes, Forall (fun d => nlen d <= 520) l ->
-      existsb (fun e => 520 <? nlen e) l = false.
-  Proof.
-    induction 1 as [|d l Hd _ IH]; [reflexivity|]. cbn [existsb]. rewrite IH.
-    destruct (N.ltb_spec 520 (nlen d)); [lia|reflexivity].
-  Qed.
 
   (* the engine on a P2WSH output locked to the deposit script *)
   Lemma p2wsh_deposit_verify : forall tx i sig pk d amount,
@@ -554,3 +572,432 @@ Section InterpLemmas.
     apply p2pkh_run_final. assumption.
   Qed.
 End InterpLemmas.
+
+(* ------------------------------------------------------------------ builder *)
+Definition pre_of (i : input) : pre_in :=
+  match in_kind_ i with
+  | KPkh => {| pi_txid := u_txid (in_utxo i); pi_vout := u_vout (in_utxo i);
+               pi_script := []; pi_witness := [] |}
+  | KSh r => {| pi_txid := u_txid (in_utxo i); pi_vout := u_vout (in_utxo i);
+                pi_script := if is_witness_program (in_script i) then [] else r;
+                pi_witness := if is_witness_program (in_script i) then [r] else [] |}
+  end.
+Definition args_of (i : input) : sigargs :=
+  {| sa_value := u_value (in_utxo i);
+     sa_code := match in_kind_ i with KPkh => in_script i | KSh r => r end;
+     sa_witness := is_witness_program (in_script i) |}.
+
+Lemma add_input_shape : forall b i b', add_input b i = Some b' ->
+    b_ins b' = b_ins b ++ [pre_of i] /\ b_args b' = b_args b ++ [args_of i] /\
+    b_outs b' = b_outs b /\ b_hashes b' = b_hashes b.
+Proof.
+  intros b i b' H. unfold add_input, pre_of, args_of in *. destruct (in_kind_ i) as [|r].
+  - unfold add_pkh_input in H. destruct (classify (in_script i)); inversion H; subst; cbn; auto.
+  - unfold add_sh_input in H. destruct (classify (in_script i)); inversion H; subst; cbn; auto.
+Qed.
+
+Lemma add_inputs_shape : forall l b b', add_inputs b l = Some b' ->
+    b_ins b' = b_ins b ++ map pre_of l /\ b_args b' = b_args b ++ map args_of l /\
+    b_outs b' = b_outs b /\ b_hashes b' = b_hashes b.
+Proof.
+  induction l as [|i l IH]; intros b b' H; cbn [add_inputs] in H.
+  - inversion H; subst. cbn. now rewrite !app_nil_r.
+  - destruct (add_input b i) as [b1|] eqn:E; [|discriminate].
+    apply add_input_shape in E as (E1&E2&E3&E4). apply IH in H as (H1&H2&H3&H4).
+    cbn [map]. rewrite H1, H2, H3, H4, E1, E2, E3, E4, <- !app_assoc. auto.
+Qed.
+
+Lemma fold_outputs_shape : forall outs b,
+    let b' := fold_left (fun b o => add_output b (fst o) (snd o)) outs b in
+    b_ins b' = b_ins b /\ b_args b' = b_args b /\ b_outs b' = b_outs b ++ outs /\
+    b_hashes b' = b_hashes b.
+Proof.
+  induction outs as [|[v s] outs IH]; intro b; cbn.
+  - now rewrite app_nil_r.
+  - destruct (IH (add_output b v s)) as (H1&H2&H3&H4). cbn in *.
+    rewrite H1, H2, H3, H4, <- app_assoc. auto.
+Qed.
+
+Lemma build_shape : forall ins outs b, build ins outs = Some b ->
+    b_ins b = map pre_of ins /\ b_args b = map args_of ins /\ b_outs b = outs /\ b_hashes b = [].
+Proof.
+  intros ins outs b H. unfold build in H.
+  destruct (add_inputs new_builder ins) as [b0|] eqn:E; [|discriminate].
+  cbn in H. inversion H; subst. apply add_inputs_shape in E as (E1&E2&E3&E4).
+  destruct (fold_outputs_shape outs b0) as (H1&H2&H3&H4). cbn in *.
+  rewrite H1, H2, H3, H4, E1, E2, E3, E4. auto.
+Qed.
+
+Lemma hashes_from_nth : forall args tx k hs, hashes_from tx k args = Some hs ->
+    forall i a, nth_error args i = Some a ->
+      exists code, effective_code (sa_witness a) (sa_code a) = Some code /\
+                   nth_error hs i = Some (mk_sighash (if sa_witness a then Bip143 else Legacy) tx
+                                                     (k + i) code (sa_value a) sighash_all).
+Proof.
+  induction args as [|a0 args IH]; intros tx k hs H i a Hi.
+  - destruct i; discriminate.
+  - cbn [hashes_from] in H.
+    destruct (effective_code (sa_witness a0) (sa_code a0)) as [code|] eqn:E; [|discriminate].
+    destruct (hashes_from tx (S k) args) as [r|] eqn:R; [|discriminate].
+    inversion H; subst. destruct i as [|i].
+    + cbn in Hi. inversion Hi; subst. exists code. rewrite Nat.add_0_r. auto.
+    + cbn in Hi. destruct (IH _ _ _ R _ _ Hi) as [c [H1 H2]]. exists c. split; [assumption|].
+      replace (k + S i)%nat with (S k + i)%nat by lia. exact H2.
+Qed.
+
+Lemma hashes_from_length : forall args tx k hs, hashes_from tx k args = Some hs -> length hs = length args.
+Proof.
+  induction args as [|a0 args IH]; intros tx k hs H; cbn in H.
+  - inversion H. reflexivity.
+  - destruct (effective_code _ _); [|discriminate].
+    destruct (hashes_from tx (S k) args) eqn:R; [|discriminate]. inversion H. cbn. f_equal. eauto.
+Qed.
+
+Section BuilderLemmas.
+  Variable sigT : Type.
+  Variable der : sigT -> bytes.
+  Variable ecdsa_verify : bytes -> sighash -> sigT -> bool.
+  Notation sign_input := (sign_input sigT der ecdsa_verify).
+  Notation sign_inputs := (sign_inputs sigT der ecdsa_verify).
+  Notation add_signatures := (add_signatures sigT der ecdsa_verify).
+
+  Lemma sign_inputs_nth : forall ins args hs sigs l,
+      sign_inputs ins args hs sigs = Some l ->
+      forall i p, nth_error ins i = Some p ->
+        exists a h sg pk si, nth_error args i = Some a /\ nth_error hs i = Some h /\
+          nth_error sigs i = Some (sg, pk) /\ sign_input p a h sg pk = Some si /\
+          nth_error l i = Some si.
+  Proof.
+    induction ins as [|p0 ins IH]; intros args hs sigs l H i p Hi; [destruct i; discriminate|].
+    cbn [C27.sign_inputs] in H.
+    destruct args as [|a0 args]; [discriminate|]. destruct hs as [|h0 hs]; [discriminate|].
+    destruct sigs as [|[sg0 pk0] sigs]; [discriminate|].
+    destruct (sign_input p0 a0 h0 sg0 pk0) as [si0|] eqn:E; [|discriminate].
+    destruct (sign_inputs ins args hs sigs) as [l'|] eqn:R; [|discriminate].
+    cbn in H. inversion H; subst. destruct i as [|i].
+    - cbn in Hi. inversion Hi; subst. exists a0, h0, sg0, pk0, si0. cbn. auto.
+    - cbn in Hi. destruct (IH _ _ _ _ R _ _ Hi) as (a&h&sg&pk&si&H1&H2&H3&H4&H5).
+      exists a, h, sg, pk, si. cbn. auto.
+  Qed.
+
+  (* the count and every signature are checked before anything is returned *)
+  Lemma sign_inputs_all_verified : forall ins args hs sigs l,
+      sign_inputs ins args hs sigs = Some l ->
+      forall i h sg pk, (i < length ins)%nat -> nth_error hs i = Some h ->
+        nth_error sigs i = Some (sg, pk) -> ecdsa_verify pk h sg = true.
+  Proof.
+    intros ins args hs sigs l H i h sg pk Hi Hh Hs.
+    destruct (nth_error ins i) as [p|] eqn:Ep; [|apply nth_error_None in Ep; lia].
+    destruct (sign_inputs_nth _ _ _ _ _ H _ _ Ep) as (a&h'&sg'&pk'&si&H1&H2&H3&H4&H5).
+    rewrite Hh in H2. rewrite Hs in H3. inversion H2; inversion H3; subst.
+    unfold C27.sign_input in H4. destruct (ecdsa_verify pk' h' sg'); [reflexivity|discriminate].
+  Qed.
+
+  Lemma add_signatures_some : forall b sigs tx,
+      add_signatures b sigs = Some tx ->
+      b_hashes b <> [] /\ length sigs = length (b_ins b) /\
+      exists l, sign_inputs (b_ins b) (b_args b) (b_hashes b) sigs = Some l /\
+                tx = {| st_skel := skeleton b; st_ins := l |}.
+  Proof.
+    intros b sigs tx H. unfold C27.add_signatures in H.
+    destruct (b_hashes b) as [|h0 hs] eqn:E; [discriminate|].
+    destruct (Nat.eqb_spec (length sigs) (length (b_ins b))) as [L|L]; [|discriminate].
+    cbn [negb] in H.
+    destruct (sign_inputs (b_ins b) (b_args b) (h0 :: hs) sigs) as [l|] eqn:R; [|discriminate].
+    cbn in H. inversion H; subst. repeat split; [discriminate|assumption|]. exists l. auto.
+  Qed.
+
+  Lemma sign_input_witness : forall p a h sg pk si,
+      sa_witness a = true -> sign_input p a h sg pk = Some si ->
+      ecdsa_verify pk h sg = true /\
+      si = {| si_script := pi_script p;
+              si_witness := [der sg ++ [sighash_all]; pk] ++
+                            match pi_witness p with [r] => [r] | _ => [] end |}.
+  Proof.
+    intros p a h sg pk si W H. unfold C27.sign_input in H.
+    destruct (ecdsa_verify pk h sg); [|discriminate]. rewrite W in H. cbn in H. inversion H. auto.
+  Qed.
+
+  Lemma sign_input_legacy : forall p a h sg pk si,
+      sa_witness a = false -> sign_input p a h sg pk = Some si ->
+      ecdsa_verify pk h sg = true /\
+      si = {| si_script := ser ([add_data (der sg ++ [sighash_all]); add_data pk] ++
+                                match pi_script p with [] => [] | r => [add_data r] end);
+              si_witness := pi_witness p |}.
+  Proof.
+    intros p a h sg pk si W H. unfold C27.sign_input in H.
+    destruct (ecdsa_verify pk h sg); [|discriminate]. rewrite W in H. cbn [negb] in H.
+    match type of H with (if ?c then _ else _) = _ => destruct c end; [discriminate|].
+    inversion H. auto.
+  Qed.
+End BuilderLemmas.
+
+(* ------------------------------------------------------------------ facts about the four scripts *)
+Lemma length_ser_eq : forall s n, nlen (ser s) = n -> length (ser s) = N.to_nat n.
+Proof. intros s n H. rewrite <- H. unfold nlen. now rewrite Nat2N.id. Qed.
+
+Lemma iwp_p2pkh : forall h, length h = 20%nat -> is_witness_program (ser (p2pkh h)) = false.
+Proof.
+  intros h H. unfold is_witness_program. rewrite parse_p2pkh by assumption.
+  cbn [witness_program p2pkh]. apply andb_false_r.
+Qed.
+Lemma iwp_p2sh : forall h, length h = 20%nat -> is_witness_program (ser (p2sh h)) = false.
+Proof.
+  intros h H. unfold is_witness_program. rewrite parse_p2sh by assumption.
+  cbn [witness_program p2sh]. apply andb_false_r.
+Qed.
+Lemma iwp_p2wsh : forall h, (length h = 20 \/ length h = 32)%nat ->
+    is_witness_program (ser (p2wsh h)) = true.
+Proof.
+  intros h H. unfold is_witness_program. rewrite parse_p2wsh by lia.
+  rewrite (length_ser_eq _ _ (nlen_ser_p2wsh h)).
+  unfold p2wsh. cbn [witness_program penc_eqb]. unfold nlen.
+  destruct H as [H|H]; rewrite H; reflexivity.
+Qed.
+
+Lemma classify_p2pkh : forall h, length h = 20%nat -> classify (ser (p2pkh h)) = CPubKeyHash h.
+Proof. intros h H. unfold classify. rewrite parse_p2pkh by assumption. cbn. now rewrite H. Qed.
+Lemma classify_p2wpkh : forall h, length h = 20%nat -> classify (ser (p2wpkh h)) = CWitnessPubKeyHash h.
+Proof.
+  intros h H. unfold classify. change (p2wpkh h) with (p2wsh h). rewrite parse_p2wsh by lia.
+  cbn. now rewrite H.
+Qed.
+Lemma classify_p2sh : forall h, length h = 20%nat -> classify (ser (p2sh h)) = CScriptHash h.
+Proof. intros h H. unfold classify. rewrite parse_p2sh by assumption. cbn. now rewrite H. Qed.
+Lemma classify_p2wsh : forall h, length h = 32%nat -> classify (ser (p2wsh h)) = CWitnessScriptHash h.
+Proof.
+  intros h H. unfold classify. rewrite parse_p2wsh by lia. cbn. now rewrite H.
+Qed.
+
+Lemma eff_p2pkh : forall h, length h = 20%nat ->
+    effective_code false (ser (p2pkh h)) = Some (ser (p2pkh h)).
+Proof. intros h H. unfold effective_code. now rewrite parse_p2pkh. Qed.
+Lemma eff_p2wpkh : forall h, length h = 20%nat ->
+    effective_code true (ser (p2wpkh h)) = Some (ser (p2pkh h)).
+Proof.
+  intros h H. unfold effective_code. change (p2wpkh h) with (p2wsh h). rewrite parse_p2wsh by lia.
+  cbn [p2wsh classify_ops]. now rewrite H.
+Qed.
+Lemma classify_deposit : forall d, classify_ops (deposit_ops d) = COther.
+Proof. intro d. unfold deposit_ops. destruct (dp_extra d); reflexivity. Qed.
+Lemma eff_deposit : forall w d, dep_wf d ->
+    effective_code w (ser (deposit_ops d)) = Some (ser (deposit_ops d)).
+Proof.
+  intros w d W. unfold effective_code. rewrite parse_ser by (apply deposit_ops_wf; assumption).
+  rewrite classify_deposit. destruct w; reflexivity.
+Qed.
+
+Lemma add_data_canon : forall d, (2 <= length d)%nat -> add_data d = canon_push d.
+Proof. intros [|a [|b t]] H; cbn in H; try lia; reflexivity. Qed.
+
+Lemma compressed_len : forall pk, compressed_pk pk = true -> length pk = 33%nat.
+Proof.
+  intros [|x t] H; [discriminate|]. unfold compressed_pk in H.
+  apply andb_prop in H as [H _]. now apply Nat.eqb_eq in H.
+Qed.
+
+(* every well-formed list of wallet / deposit inputs is accepted by the builder *)
+Lemma add_inputs_ok : forall hash160 sha256,
+    (forall x, length (hash160 x) = 20%nat) -> (forall x, length (sha256 x) = 32%nat) ->
+    forall ins b, Forall (fun w => wkind_wf (wi_kind w)) ins ->
+      exists b', add_inputs b (map (to_input hash160 sha256) ins) = Some b'.
+Proof.
+  intros hash160 sha256 H1 H2 ins. induction ins as [|w ins IH]; intros b W.
+  - exists b. reflexivity.
+  - inversion W as [|? ? Ww Wr]; subst. cbn [map add_inputs].
+    assert (E : exists b1, add_input b (to_input hash160 sha256 w) = Some b1).
+    { unfold to_input, add_input. destruct (wi_kind w) as [[|] h|[|] d]; cbn [wkind_wf] in Ww;
+        cbn [in_kind_ in_script in_utxo]; unfold add_pkh_input, add_sh_input.
+      - rewrite classify_p2wpkh by assumption. eauto.
+      - rewrite classify_p2pkh by assumption. eauto.
+      - rewrite classify_p2wsh by apply H2. eauto.
+      - rewrite classify_p2sh by apply H1. eauto. }
+    destruct E as [b1 E]. rewrite E. apply IH. assumption.
+Qed.
+
+(* ------------------------------------------------------------------ main theorems *)
+Lemma sig_enc_len' : forall ds der, sig_enc_ok ds der = true -> (8 <= length der <= 72)%nat.
+Proof. intros ds der H. unfold sig_enc_ok in H. lia. Qed.
+
+Lemma hashtype_all_ok : hashtype_ok sighash_all = true.
+Proof. reflexivity. Qed.
+
+Lemma sig_accept_built : forall der_strict checksig c pk der,
+    sig_enc_ok der_strict der = true -> compressed_pk pk = true ->
+    checksig pk der (mk_sighash (c_ver c) (c_tx c) (c_idx c) (c_code c) (c_amount c) sighash_all) = true ->
+    sig_accept der_strict checksig c pk (der ++ [sighash_all]) = true.
+Proof.
+  intros der_strict checksig c pk der H1 H2 H3. unfold sig_accept. rewrite unsnoc_app.
+  rewrite hashtype_all_ok, H1, H3. unfold pk_enc_ok. rewrite H2. destruct (c_ver c); reflexivity.
+Qed.
+
+Theorem all_inputs_accepted :
+  forall (hash160 sha256 : bytes -> bytes) (der_strict : bytes -> bool)
+         (checksig : bytes -> bytes -> sighash -> bool)
+         (sigT : Type) (der : sigT -> bytes) (ecdsa_verify : bytes -> sighash -> sigT -> bool),
+    (forall x, length (hash160 x) = 20%nat) -> (forall x, length (sha256 x) = 32%nat) ->
+    (forall pk h sg, ecdsa_verify pk h sg = true ->
+                     sig_enc_ok der_strict (der sg) = true /\ checksig pk (der sg) h = true) ->
+    forall (ins : list winput) (outs : list (Z * bytes)) (sigs : list (sigT * bytes)) b b' tx,
+      Forall (fun w => wkind_wf (wi_kind w)) ins ->
+      build (map (to_input hash160 sha256) ins) outs = Some b ->
+      compute_hashes b = Some b' ->
+      add_signatures sigT der ecdsa_verify b' sigs = Some tx ->
+      (forall i w sg pk, nth_error ins i = Some w -> nth_error sigs i = Some (sg, pk) ->
+                         compressed_pk pk = true /\ hash160 pk = committed_pkh (wi_kind w)) ->
+      forall i w, nth_error ins i = Some w ->
+        exists si, nth_error (st_ins tx) i = Some si /\
+          verify_input hash160 sha256 der_strict checksig (st_skel tx) i
+                       (si_script si) (si_witness si)
+                       (in_script (to_input hash160 sha256 w)) (u_value (wi_utxo w)) = Accept.
+Proof.
+  intros hash160 sha256 der_strict checksig sigT der ecdsa_verify Hh Hs Hlib
+         ins outs sigs b b' tx Wf Hb Hc Ha Hkeys i w Hi.
+  apply build_shape in Hb as (B1&B2&B3&B4).
+  unfold compute_hashes in Hc. destruct (hashes_from (skeleton b) 0 (b_args b)) as [hs|] eqn:HF; [|discriminate].
+  inversion Hc; subst b'; clear Hc.
+  apply add_signatures_some in Ha as (_&HL&l&HSI&->). cbn [b_ins b_args b_hashes] in HSI, HL.
+  cbn [st_skel st_ins].
+  assert (SK : skeleton {| b_ins := b_ins b; b_args := b_args b; b_outs := b_outs b; b_hashes := hs |}
+               = skeleton b) by reflexivity.
+  rewrite SK.
+  assert (Hp : nth_error (b_ins b) i = Some (pre_of (to_input hash160 sha256 w))).
+  { rewrite B1, map_map. exact (map_nth_error (fun x => pre_of (to_input hash160 sha256 x)) _ _ Hi). }
+  destruct (sign_inputs_nth _ _ _ _ _ _ _ _ HSI _ _ Hp) as (a&h&sg&pk&si&A1&A2&A3&A4&A5).
+  assert (Ea : a = args_of (to_input hash160 sha256 w)).
+  { rewrite B2, map_map in A1. rewrite (map_nth_error (fun x => args_of (to_input hash160 sha256 x)) _ _ Hi) in A1. now inversion A1. }
+  destruct (hashes_from_nth _ _ _ _ HF _ _ A1) as (code&C1&C2). rewrite A2 in C2. inversion C2; subst h; clear C2.
+  cbn [Nat.add] in A4.
+  destruct (Hkeys _ _ _ _ Hi A3) as [Kc Kh].
+  assert (Ilt : (i < length (tx_ins (skeleton b)))%nat).
+  { unfold skeleton. cbn [tx_ins]. rewrite map_length. apply nth_error_Some. congruence. }
+  pose proof (Forall_forall (fun w => wkind_wf (wi_kind w)) ins) as [FF _].
+  specialize (FF Wf w (nth_error_In _ _ Hi)). cbn beta in FF.
+  pose proof (compressed_len _ Kc) as Lpk.
+  assert (Npk : nlen pk <= 520) by (unfold nlen; lia).
+  exists si. split; [assumption|].
+  subst a. unfold args_of, pre_of, to_input in *.
+  destruct (wi_kind w) as [[|] ph|[|] d]; cbn [wkind_wf committed_pkh] in FF, Kh;
+    cbn [in_kind_ in_script in_utxo sa_witness sa_code sa_value] in *.
+  - (* P2WPKH *)
+    change (p2wpkh ph) with (p2wsh ph) in A4, C1.
+    rewrite iwp_p2wsh in A4, C1 by lia. change (p2wsh ph) with (p2wpkh ph) in C1.
+    rewrite eff_p2wpkh in C1 by assumption. inversion C1; subst code; clear C1.
+    apply sign_input_witness in A4 as [V ->]; [|reflexivity].
+    destruct (Hlib _ _ _ V) as [L1 L2]. pose proof (sig_enc_len' _ _ L1) as Ls.
+    cbn [si_script si_witness pi_script pi_witness app].
+    rewrite p2wpkh_verify; try assumption; [|unfold nlen; rewrite app_length; cbn [length]; lia].
+    rewrite sig_accept_built by assumption. rewrite Kh, bytes_eqb_refl. reflexivity.
+  - (* P2PKH *)
+    rewrite iwp_p2pkh in A4, C1 by assumption. rewrite eff_p2pkh in C1 by assumption.
+    inversion C1; subst code; clear C1.
+    apply sign_input_legacy in A4 as [V ->]; [|reflexivity].
+    destruct (Hlib _ _ _ V) as [L1 L2]. pose proof (sig_enc_len' _ _ L1) as Ls.
+    cbn [si_script si_witness pi_script pi_witness app].
+    rewrite !add_data_canon by (rewrite ?app_length; cbn [length]; lia).
+    rewrite p2pkh_verify; try assumption; [|unfold nlen; rewrite app_length; cbn [length]; lia].
+    rewrite sig_accept_built by assumption. rewrite Kh, bytes_eqb_refl. reflexivity.
+  - (* P2WSH deposit *)
+    rewrite iwp_p2wsh in A4, C1 by (right; apply Hs). rewrite eff_deposit in C1 by assumption.
+    inversion C1; subst code; clear C1.
+    apply sign_input_witness in A4 as [V ->]; [|reflexivity].
+    destruct (Hlib _ _ _ V) as [L1 L2]. pose proof (sig_enc_len' _ _ L1) as Ls.
+    cbn [si_script si_witness pi_script pi_witness app].
+    change [der sg ++ [sighash_all]; pk; ser (deposit_ops d)]
+      with (deposit_witness (der sg ++ [sighash_all]) pk (ser (deposit_ops d))).
+    rewrite p2wsh_deposit_verify; try assumption; try apply Hs;
+      [|unfold nlen; rewrite app_length; cbn [length]; lia].
+    unfold deposit_cond. rewrite sig_accept_built by assumption.
+    rewrite Kh, bytes_eqb_refl. reflexivity.
+  - (* P2SH deposit *)
+    rewrite iwp_p2sh in A4, C1 by apply Hh. rewrite eff_deposit in C1 by assumption.
+    inversion C1; subst code; clear C1.
+    apply sign_input_legacy in A4 as [V ->]; [|reflexivity].
+    destruct (Hlib _ _ _ V) as [L1 L2]. pose proof (sig_enc_len' _ _ L1) as Ls.
+    cbn [si_script si_witness pi_script pi_witness].
+    pose proof (deposit_ser_len d FF) as Ld.
+    assert (Ld2 : (92 <= length (ser (deposit_ops d)))%nat).
+    { unfold nlen in Ld. destruct (dp_extra d); lia. }
+    destruct (ser (deposit_ops d)) as [|x0 t0] eqn:Escr; [cbn in Ld2; lia|]. rewrite <- Escr in *.
+    cbn [app].
+    rewrite !add_data_canon by (rewrite ?app_length; cbn [length]; lia).
+    change (ser [canon_push (der sg ++ [sighash_all]); canon_push pk; canon_push (ser (deposit_ops d))])
+      with (deposit_script_sig (der sg ++ [sighash_all]) pk (ser (deposit_ops d))).
+    rewrite p2sh_deposit_verify; try assumption; try apply Hh;
+      [|unfold nlen; rewrite app_length; cbn [length]; lia].
+    unfold deposit_cond. rewrite sig_accept_built by assumption.
+    rewrite Kh, bytes_eqb_refl. reflexivity.
+Qed.
+
+Theorem mismatched_signature_rejected_before_tx :
+  forall (sigT : Type) (der : sigT -> bytes) (ecdsa_verify : bytes -> sighash -> sigT -> bool)
+         (b : builder) (sigs : list (sigT * bytes)),
+    (length sigs <> length (b_ins b) \/
+     exists i h sg pk, (i < length (b_ins b))%nat /\ nth_error (b_hashes b) i = Some h /\
+                       nth_error sigs i = Some (sg, pk) /\ ecdsa_verify pk h sg = false) ->
+    add_signatures sigT der ecdsa_verify b sigs = None.
+Proof.
+  intros sigT der ecdsa_verify b sigs H.
+  destruct (add_signatures sigT der ecdsa_verify b sigs) as [tx|] eqn:E; [|reflexivity].
+  apply add_signatures_some in E as (_&HL&l&HSI&_).
+  destruct H as [H|(i&h&sg&pk&H1&H2&H3&H4)]; [contradiction|].
+  rewrite (sign_inputs_all_verified _ _ _ _ _ _ _ _ HSI i h sg pk H1 H2 H3) in H4. discriminate.
+Qed.
+
+(* and nothing is produced before ComputeSignatureHashes has run *)
+Lemma no_hashes_no_tx : forall sigT der ecdsa_verify b sigs,
+    b_hashes b = [] -> add_signatures sigT der ecdsa_verify b sigs = None.
+Proof. intros. unfold add_signatures. now rewrite H. Qed.
+
+(* ------------------------------------------------------------------ the hypotheses are satisfiable *)
+Module Witness.
+  Definition h160 (_ : bytes) : bytes := repeat 7 20.
+  Definition s256 (_ : bytes) : bytes := repeat 9 32.
+  Definition pk : bytes := 2 :: repeat 1 32.
+  Definition der (_ : unit) : bytes := repeat 48 9.
+  Definition d : dep := {| dp_depositor := repeat 1 20; dp_extra := Some (repeat 2 32);
+                           dp_blinding := repeat 3 8; dp_wpkh := repeat 7 20;
+                           dp_rpkh := repeat 5 20; dp_lock := [0; 241; 83; 101] |}.
+  Definition u (n : N) : utxo := {| u_txid := n; u_vout := 0; u_value := 5000 |}.
+  Definition ins : list winput :=
+    [ {| wi_utxo := u 1; wi_kind := WPkh false (repeat 7 20) |};
+      {| wi_utxo := u 2; wi_kind := WPkh true (repeat 7 20) |};
+      {| wi_utxo := u 3; wi_kind := WDeposit false d |};
+      {| wi_utxo := u 4; wi_kind := WDeposit true d |} ].
+  Definition sigs : list (unit * bytes) := repeat (tt, pk) 4.
+  Definition yes3 (_ : bytes) (_ : sighash) (_ : unit) := true.
+  Definition yes3' (_ _ : bytes) (_ : sighash) := true.
+  Definition yes1 (_ : bytes) := true.
+End Witness.
+
+Example hypotheses_satisfiable :
+  exists b b' tx,
+    Forall (fun w => wkind_wf (wi_kind w)) Witness.ins /\
+    build (map (to_input Witness.h160 Witness.s256) Witness.ins) [(9000%Z, ser (p2wpkh (repeat 7 20)))] = Some b /\
+    compute_hashes b = Some b' /\
+    add_signatures unit Witness.der Witness.yes3 b' Witness.sigs = Some tx /\
+    (forall i w sg pk, nth_error Witness.ins i = Some w -> nth_error Witness.sigs i = Some (sg, pk) ->
+                       compressed_pk pk = true /\ Witness.h160 pk = committed_pkh (wi_kind w)) /\
+    (* ... and the conclusion of all_inputs_accepted, recomputed by evaluation *)
+    forallb (fun i => match nth_error (st_ins tx) i, nth_error Witness.ins i with
+                      | Some si, Some w =>
+                          vres_eqb (verify_input Witness.h160 Witness.s256 Witness.yes1 Witness.yes3'
+                                                 (st_skel tx) i (si_script si) (si_witness si)
+                                                 (in_script (to_input Witness.h160 Witness.s256 w))
+                                                 (u_value (wi_utxo w))) Accept
+                      | _, _ => false
+                      end) [0; 1; 2; 3]%nat = true.
+Proof.
+  destruct (build (map (to_input Witness.h160 Witness.s256) Witness.ins)
+                  [(9000%Z, ser (p2wpkh (repeat 7 20)))]) as [b|] eqn:B; [|vm_compute in B; discriminate].
+  destruct (compute_hashes b) as [b'|] eqn:C; [|revert C; vm_compute in B; inversion B; subst; vm_compute; discriminate].
+  destruct (add_signatures unit Witness.der Witness.yes3 b' Witness.sigs) as [tx|] eqn:A;
+    [|revert A; vm_compute in B; inversion B; subst; vm_compute in C; inversion C; subst; vm_compute; discriminate].
+  exists b, b', tx. repeat split.
+  - repeat constructor.
+  - destruct i as [|[|[|[|i]]]]; cbn in H, H0; inversion H; inversion H0; subst; reflexivity.
+  - destruct i as [|[|[|[|i]]]]; cbn in H, H0; inversion H; inversion H0; subst; try reflexivity.
+    destruct i; discriminate.
+  - vm_compute in B; inversion B; subst. vm_compute in C; inversion C; subst.
+    vm_compute in A; inversion A; subst. vm_compute. reflexivity.
+Qed.
